@@ -90,8 +90,9 @@ func rtCatalogue() []rtVersion {
 				for _, m := range obj.Metrics {
 					d := rtDecl{name: m.Name, kind: int(m.Kind), typ: int(m.Type), keys: m.Keys, hidden: m.Hidden}
 					d.pos = strings.TrimPrefix(m.Source, "X:")
-					if m.Name != "lseen" {
-						d.effect = 1
+					d.effect = 1
+					if m.Name == "lseen" {
+						d.effect = 2 // incremented at the end of every line the program finishes
 					}
 					v.decls = append(v.decls, d)
 				}
@@ -198,6 +199,15 @@ func (e *rtEnv) sendLine(text string) {
 	e.lines <- logline.New(context.Background(), "log", text)
 	e.sent++
 	deadline := time.Now().Add(3 * time.Second)
+	// the dispatcher counts the line after taking it off the channel
+	base, _ := strconv.ParseInt(e.base["lines_total"], 10, 64)
+	for time.Now().Before(deadline) {
+		cur, _ := strconv.ParseInt(expvar.Get("lines_total").String(), 10, 64)
+		if cur >= base+int64(e.sent) {
+			break
+		}
+		time.Sleep(100 * time.Microsecond)
+	}
 	for p, b := range before {
 		for e.lseenOf(p) <= b && time.Now().Before(deadline) {
 			// a version that hits a runtime error never reaches its last statement
@@ -248,9 +258,6 @@ func (e *rtEnv) apply(op string) {
 func (e *rtEnv) dumpStore() []string {
 	var out []string
 	_ = e.store.Range(func(m *metrics.Metric) error {
-		if m.Name == "lseen" {
-			return nil
-		}
 		var lvs []string
 		for _, lv := range m.LabelValues {
 			var v string
